@@ -466,6 +466,113 @@ def gen_red(rng, cell):
     return {"p": op, "a": ra, "b": rb}
 
 
+# ------------------------------------------------------------------------------------------ repeat / expand compositions
+
+REP_KINDS = ["rr_lead", "rr_lead2", "rr_same", "r_expand_lead", "expand_r_lead", "unsq_rr", "rr_lead_add", "r_sum0", "rr_mT_matmul",
+             "r_expand_same"]
+REP_BATCHES = [[], [2], [2, 1]]
+
+
+def rep_cells(quick):
+    """program steps built from repeat and expand: a second repeat on an already repeated operator (same rank and with NEW leading
+    batch dimensions), repeat after expand, expand after repeat, and binary operations / reductions on the results"""
+    out = []
+    for ci, c in enumerate(CLASSES):
+        kinds_ = ["rr_lead"] + [REP_KINDS[1 + (ci + j * 4) % (len(REP_KINDS) - 1)] for j in range(2)] if quick else REP_KINDS
+        for ki, k in enumerate(dict.fromkeys(kinds_)):
+            bs = [REP_BATCHES[(ci + ki) % 2]] if quick else REP_BATCHES
+            for b in bs:
+                out.append(("rep", k, c, tuple(b)))
+    return out
+
+
+def gen_rep(rng, cell):
+    _, k, c, b = cell
+    e = g.inst(rng, c, list(b), N)
+    a = leaf(e)
+    b = list(ob.shape_of(e)[:-2])            # the operand's actual batch shape
+    nb = len(b)
+    one = [1] * nb
+    R = lambda x, sizes: {"p": "repeat", "a": x, "sizes": list(sizes)}
+    if k == "rr_lead":                       # op.repeat(3,1,1).repeat(2,1,1,1)
+        return R(R(a, [3] + one), [2, 1] + one)
+    if k == "rr_lead2":                      # both the old and the new dimension repeated by the second call
+        return R(R(a, [2] + one), [3, 2] + one)
+    if k == "rr_same":
+        return R(R(a, [2] + one), [3] + one)
+    if k == "r_expand_lead":
+        return {"p": "expand", "a": R(a, [3] + one), "batch": [2, 3] + b}
+    if k == "r_expand_same":
+        x = R({"p": "unsqueeze", "a": a, "dim": 0}, [1] + [2] * nb) if nb else R({"p": "unsqueeze", "a": a, "dim": 0}, [1])
+        return {"p": "expand", "a": x, "batch": [3] + [2 * s for s in b]}
+    if k == "expand_r_lead":
+        return R({"p": "expand", "a": a, "batch": [3] + b}, [2, 1] + one)
+    if k == "unsq_rr":
+        return R(R({"p": "unsqueeze", "a": a, "dim": 0}, [3] + one), [2, 2] + one)
+    if k == "rr_lead_add":
+        return {"p": "add", "a": R(R(a, [3] + one), [2, 1] + one), "b": leaf(g.inst(rng, "Dense", [2, 3] + b, N))}
+    if k == "r_sum0":
+        return {"p": "sum", "a": R(R(a, [3] + one), [2, 1] + one), "dim": 0}
+    if k == "rr_mT_matmul":
+        x = R(R(a, [3] + one), [2, 1] + one)
+        return {"p": "matmul", "a": {"p": "transpose", "a": x, "d1": -1, "d2": -2}, "b": leaf(g.inst(rng, "Diag", [3] + b, N))}
+    raise ValueError(k)
+
+
+# ------------------------------------------------------------------------------------------ operands that carry pre-filled caches
+
+CACHE_FIRST = ["add_root", "add_lrroot", "radd_root", "alr2", "cat_rows"]
+CACHE_A = ["Root", "Chol", "Toeplitz", "Dense", "Diag", "Kron", "AddedDiag", "Sum", "LowRankRoot", "KronAddedDiag", "PsdSum", "BlockDiag"]
+CACHE_PARTNER = ["Toeplitz", "Root", "Chol", "Kron", "Diag", "Dense", "AddedDiag", "Sum"]
+CACHE_PARTNER_ODD = ["Toeplitz", "Root", "Chol", "Diag", "Dense", "ConstantDiag"]       # classes with an instance of odd size
+CACHE_OPS = [(op, order) for op in ("mul", "add", "matmul", "sub") for order in (0, 1)]
+
+
+def cache_cells(quick):
+    """results of  A + Root ,  add_low_rank  and  cat_rows  (the library attaches root / inverse-root caches derived from A's
+    caches to these RESULTS) as operands of every binary operation, both orders, against PSD partners of every family"""
+    out = []
+    for fi, f in enumerate(CACHE_FIRST):
+        for ai, ca in enumerate(CACHE_A):
+            partners = CACHE_PARTNER_ODD if f == "cat_rows" else CACHE_PARTNER
+            if quick:
+                picks = [(("mul", (fi + ai) % 2), partners[(fi + 2 * ai) % len(partners)])]
+                if ca in ("Root", "Chol"):
+                    picks += [(("mul", 1 - (fi + ai) % 2), "Toeplitz"), (CACHE_OPS[2 + (fi * 3 + ai) % 6], partners[(fi + ai + 3) % len(partners)])]
+                elif (fi + ai) % 3 == 0:
+                    picks += [(CACHE_OPS[2 + (fi * 3 + ai) % 6], partners[(fi + ai + 3) % len(partners)])]
+                bs = [[[], [2]][(fi + ai) % 2]]
+            else:
+                picks = [(oo, pk) for oo in CACHE_OPS for pk in partners]
+                bs = [[], [2]]
+            for (op, order), pk in dict.fromkeys(picks):
+                for b in bs:
+                    out.append(("cache", f, ca, op, order, pk, tuple(b)))
+    return out
+
+
+def gen_cache(rng, cell):
+    _, f, ca, op, order, pk, b = cell
+    b = list(b)
+    e = g.general_root(rng, b, N) if ca == "Root" else g.inst(rng, ca, b, N, psd=True)
+    a = leaf(e)
+    n2 = N
+    if f in ("add_root", "add_lrroot"):
+        v = {"cls": "Root" if f == "add_root" else "LowRankRoot", "root": ob.rand_t(rng, b + [N, 2], -2, 2)}
+        first = {"p": "add", "a": a, "b": leaf(v)}
+    elif f == "radd_root":
+        first = {"p": "add", "a": leaf({"cls": "Root", "root": ob.rand_t(rng, b + [N, 2], -2, 2)}), "b": a}
+    elif f == "alr2":
+        first = {"p": "add_low_rank", "a": a, "t": ob.rand_t(rng, b + [N, 2], -2, 2)}
+    else:
+        nbat = int(torch.tensor(b).prod()) if b else 1
+        first = {"p": "cat_rows", "a": a, "B": ob.rand_t(rng, b + [1, N], -1, 1), "D": ob.T(b + [1, 1], [60] * nbat)}
+        n2 = N + 1
+    ek = g.general_root(rng, b, n2) if pk == "Root" else g.inst(rng, pk, b, n2, psd=True)
+    x, y = (leaf(ek), first) if order else (first, leaf(ek))
+    return {"p": op, "a": x, "b": y}
+
+
 ROOT_KINDS = ["alr1", "alr2", "cat_rows", "prod0", "prod_last"]
 
 
@@ -567,7 +674,7 @@ def gen_prog(rng, idx, depth):
 
 
 def all_cells(quick):
-    cells = pair_cells(quick) + scalar_cells(quick) + shape_cells(quick) + root_cells(quick) + comp_cells(quick) + bc2_cells(quick) + red_cells(quick)
+    cells = pair_cells(quick) + scalar_cells(quick) + shape_cells(quick) + root_cells(quick) + comp_cells(quick) + bc2_cells(quick) + red_cells(quick) + rep_cells(quick) + cache_cells(quick)
     nprog = 240 if quick else 1500
     for i in range(nprog):
         cells.append(("prog", i, 2 + i % 3 if quick else 2 + i % 5))
@@ -589,6 +696,10 @@ def gen_cell(rng, cell):
         return gen_bc2(rng, cell)
     if cell[0] == "red":
         return gen_red(rng, cell)
+    if cell[0] == "rep":
+        return gen_rep(rng, cell)
+    if cell[0] == "cache":
+        return gen_cache(rng, cell)
     return gen_prog(rng, cell[1], cell[2])
 
 
